@@ -45,20 +45,24 @@ func checkC10(c FmtCase) Outcome {
 	content := c.Content()
 	sb := cli.NewSandbox("c10")
 	defer sb.Close()
-	tree := cli.Tree{"regex-assembly/932100.ra": content, "rules/": ""}
+	tree := cli.Tree{c.FileRel(): content, "rules/": ""}
 	for n, v := range c.Files {
 		tree["regex-assembly/"+n] = v
+	}
+	c.Sibling(tree)
+	if c.Target != "" {
+		out.Labels = append(out.Labels, "target:"+c.Target)
 	}
 	root := sb.Path("crs")
 	if err := tree.Write(root); err != nil {
 		panic(err)
 	}
-	file := sb.Path("crs/regex-assembly/932100.ra")
+	file := sb.Path("crs/" + c.FileRel())
 	gen := func(stdin *string) cli.Result {
 		if stdin != nil {
 			return cli.Run(cli.Opt{Dir: sb.Root, Stdin: *stdin, Timeout: 30 * time.Second}, "-d", root, "regex", "generate", "-")
 		}
-		return cli.Run(cli.Opt{Dir: sb.Root, Timeout: 30 * time.Second}, "-d", root, "regex", "generate", "932100")
+		return cli.Run(cli.Opt{Dir: sb.Root, Timeout: 30 * time.Second}, "-d", root, "regex", "generate", c.Arg())
 	}
 	out.Detail["original"] = content
 	g0 := gen(nil)
@@ -71,7 +75,7 @@ func checkC10(c FmtCase) Outcome {
 		}
 	}
 	s0 := gen(&content)
-	f := cli.Run(cli.Opt{Dir: sb.Root, Timeout: 30 * time.Second}, "-d", root, "regex", "format", "932100")
+	f := cli.Run(cli.Opt{Dir: sb.Root, Timeout: 30 * time.Second}, "-d", root, "regex", "format", c.Arg())
 	b, _ := os.ReadFile(file)
 	formatted := string(b)
 	out.Detail["formatted"], out.Detail["format_exit"] = formatted, f.Exit
